@@ -283,17 +283,24 @@ Theorem C05_unordered_grouped_total_max : forall (X A : Type) (dX : X)
 Proof. exact unordered_grouped_total_max. Qed.
 Print Assumptions C05_unordered_grouped_total_max.
 
-(* the unordered branch returns whenever every subgrader call returns a grade in [0,1] and the scaled costs stay
-   below sys.maxsize (C06 termination): the "if the model returns" of the theorems above is not vacuous *)
+(* the unordered branch ALWAYS returns when every subgrader call returns (C06: the solver terminates on every
+   integer matrix): the "if the model returns" of the theorems above is not vacuous and hides no failure mode *)
 Theorem C05_unordered_returns : forall (X A : Type)
     (check : nat -> A -> ginput X -> option (list (nat * ginput X)) -> option result) n answers gin R,
   1 <= n -> length answers = n -> length gin = n ->
   result_matrix X A check answers gin = Some R ->
-  (forall p r, pick R p = Some r -> (0 <= result_grade r <= 1)%Q) ->
-  (Z.of_nat n * common_den (cost_matrix R) < zmaxsize)%Z ->
   exists rs, unordered_results X A check solveZ answers gin = Some rs.
 Proof. exact unordered_returns. Qed.
 Print Assumptions C05_unordered_returns.
+
+Theorem C05_unordered_flat_returns : forall (X A : Type)
+    (check : nat -> A -> ginput X -> option (list (nat * ginput X)) -> option result) (dX : X) c answers xs R,
+  lg_ordered c = false -> lg_grouping c = [] -> 1 <= length xs -> length answers = length xs ->
+  result_matrix X A check answers (map GOne xs) = Some R ->
+  (forall p r, pick R p = Some r -> exists e, r = GOne e) ->
+  exists es, perform_check X A dX check solveZ c answers xs = Some es.
+Proof. exact unordered_flat_returns. Qed.
+Print Assumptions C05_unordered_flat_returns.
 
 (* the same for ANY solver that returns complete minimum-cost assignments with the rows in order *)
 Theorem C05_unordered_max_assignment_any_solver : forall (X A : Type) (dX : X)
